@@ -9,10 +9,10 @@ SCOPES = ["function", "class", "module", "package", "session"]
 DIMS = [
  ("fx_scope", SCOPES),
  ("sig", ["one-line", "multi-line", "closing-paren-own-line"]),
- ("declared", ["none", "one-visible-fixture", "two"]),
+ ("declared", ["none", "one-visible-fixture", "two", "defaulted-parameter-named-like-a-fixture", "keyword-only-defaulted-parameter-named-like-a-fixture"]),
  ("nest", ["module", "class", "class-in-class"]),
  ("async", ["def", "async def"]),
- ("decos", ["none", "extra-decorator"]),
+ ("decos", ["none", "extra-decorator", "multi-line-fixture-decorator", "multi-line-mark-on-the-test"]),
  ("body", ["one-line", "multi-line-with-blank", "nested-def-inside", "docstring-first"]),
  ("usefixtures", ["none", "single-line", "multi-line", "on-class", "pytestmark"]),
  ("parametrize", ["none", "indirect", "without-indirect(unjudged)"]),
@@ -20,6 +20,7 @@ DIMS = [
            "async def test_x(", "usefixtures( unclosed", 'usefixtures("a", ', "pytestmark = [usefixtures(", "def helper(", "def test_x (unjudged)"]),
  ("location", ["root", "subdirectory"]),
  ("edited_name_collides", ["no", "edited fixture has the name of a conftest fixture"]),
+ ("trailer", ["none", "multi-line module-level call after the test", "multi-line module-level list after the test", "multi-line call between the functions"]),
 ]
 
 class Doc:
@@ -51,12 +52,18 @@ def build(a):
     # ---- the fixture being edited
     scope = SCOPES[a["fx_scope"]]
     fname = "c_module" if a["edited_name_collides"] else "edited_fx"
-    declared = {0: [], 1: ["c_function"], 2: ["c_session", "l_one"]}[a["declared"]]
+    declared = {0: [], 1: ["c_function"], 2: ["c_session", "l_one"], 3: ["c_session=None"], 4: ["*", "c_session=None"]}[a["declared"]]
+    # names taken in the signature (what completion must not offer again)
+    taken = [p.split("=")[0] for p in declared if p != "*"]
     # a fixture may only declare fixtures of equal or broader scope; keep the document sensible
     params = self_ + declared
-    ctx_f = dict(func=fname, is_fixture=True, scope=scope, declared=params)
-    if a["decos"]: d.add(I + "@other_deco")
-    d.add(I + ("@pytest.fixture" if scope == "function" else '@pytest.fixture(scope="%s")' % scope))
+    ctx_f = dict(func=fname, is_fixture=True, scope=scope, declared=self_ + taken)
+    if a["decos"] == 1: d.add(I + "@other_deco")
+    if a["decos"] == 2:
+        # continuation lines of a decorator call are no place to request a fixture
+        d.add(I + "@pytest.fixture("); d.add(I + unit + 'scope="%s",' % scope, "none", col=len(I + unit)); d.add(I + ")", "none", col=len(I))
+    else:
+        d.add(I + ("@pytest.fixture" if scope == "function" else '@pytest.fixture(scope="%s")' % scope))
     def signature(name, params, ctx):
         if a["sig"] == 0 or not params:
             d.add(I + "%s %s(%s):" % (kw, name, ", ".join(params)), "signature", col=len(I + "%s %s(" % (kw, name)), **ctx)
@@ -78,9 +85,13 @@ def build(a):
             d.add(B + "def inner(q):", "unjudged"); d.add(B + unit + "return q", "unjudged"); d.add(B + "z = inner(1)", "body", **ctx)
         d.add(B + "return x", "body", **ctx)
     signature(fname, params, ctx_f); body(ctx_f); d.add("", "unjudged")
+    if a["trailer"] == 3:
+        d.add("BETWEEN = dict("); d.add("    key=1,", "none", col=4); d.add(")", "none", col=0); d.add("", "unjudged")
     # ---- a test with marks
     tparams = self_ + declared
-    ctx_t = dict(func="test_it", is_fixture=False, scope=None, declared=tparams)
+    ctx_t = dict(func="test_it", is_fixture=False, scope=None, declared=self_ + taken)
+    if a["decos"] == 3:
+        d.add(I + "@pytest.mark.skipif("); d.add(I + unit + "True,", "none", col=len(I + unit)); d.add(I + unit + 'reason="x",', "none", col=len(I + unit)); d.add(I + ")", "none", col=len(I))
     uf = a["usefixtures"]
     if uf == 1: d.add(I + '@pytest.mark.usefixtures("l_one")', "usefixtures", col=len(I + "@pytest.mark.usefixtures("))
     if uf == 2:
@@ -88,8 +99,12 @@ def build(a):
     if a["parametrize"] == 1: d.add(I + '@pytest.mark.parametrize("c_function", [1], indirect=True)', "parametrize", col=len(I + "@pytest.mark.parametrize("))
     if a["parametrize"] == 2: d.add(I + '@pytest.mark.parametrize("val", [1])', "unjudged")
     tp = tparams + (["c_function"] if a["parametrize"] == 1 and "c_function" not in tparams else []) + (["val"] if a["parametrize"] == 2 else [])
-    ctx_t["declared"] = tp
+    ctx_t["declared"] = [p.split("=")[0] for p in tp if p != "*"]
     signature("test_it", tp, ctx_t); body(ctx_t); d.add("", "unjudged")
+    if a["trailer"] == 1:
+        d.add("CONFIG = dict("); d.add("    key=1,", "none", col=4); d.add("    other=2,", "none", col=4); d.add(")", "none", col=0); d.add("", "unjudged")
+    if a["trailer"] == 2:
+        d.add("ITEMS = ["); d.add("    1,", "none", col=4); d.add("]", "none", col=0); d.add("", "unjudged")
     if uf == 3:
         d.add('@pytest.mark.usefixtures("l_one")', "usefixtures", col=len("@pytest.mark.usefixtures("))
         d.add("class TestMarked:")
